@@ -21,3 +21,4 @@ func FuzzC18_TimeTemplateEncodings(f *testing.F) {
 }
 func FuzzC18_Sort(f *testing.F)  { f.Fuzz(rapid.MakeFuzz(propC18Sort)) }
 func FuzzC18_Stdio(f *testing.F) { f.Fuzz(rapid.MakeFuzz(propC18Stdio)) }
+func FuzzC18_TextRandom(f *testing.F) { f.Fuzz(rapid.MakeFuzz(propC18TextRandom)) }
